@@ -187,3 +187,29 @@ package runner
 //@     invariant [folded_files] *i == mergeFiles(mergePatterns(old(*i), s, $i1), files, $i)
 //@   loop 3
 //@     invariant [processed_nonnil] processed != nil
+// ---- constructors
+//@ func NewPrinter
+//@   property C10 C12
+//@   ensures [writes_to_the_given_writer] result != nil && result.writer == w && len(result.indents) == 0
+//@ func NewRunner
+//@   property C10 C16
+//@   ensures [keeps_the_steps_in_order] result != nil && result.steps == steps
+//@ func NewStepAmalgamated
+//@   property C10 C16
+//@   ensures [fields_as_given] result != nil && result.name == name && result.steps == steps
+//@ func NewStepCodeGenerator
+//@   property C10
+//@   ensures [fields_as_given] result != nil && result.printer == printer && result.builder == builder && result.outputFile == outputFile
+//@ func NewStepCompile
+//@   property C10
+//@   ensures [fields_as_given] result != nil && result.compiler == c
+//@ func NewStepOutputValidationRule
+//@   property C10 C16
+//@   ensures [fields_as_given] result != nil && result.validator == v && result.ruleName == ruleName
+//@ func NewStepReadConfig
+//@   property C09 C10
+//@   ensures [fields_as_given] result != nil && result.printer == printer && result.patterns == patterns
+//@ func NewStepVerboseSwitchable
+//@   property C10 C16
+//@   ensures [fields_as_given] result != nil && result.parent == parent && result.printer == printer && result.indenter == i
+//@   ensures [active_by_default] result.active
